@@ -173,6 +173,7 @@ def run(ctx):
         ctx.hit("unsorted")
         for fn in FN2:
             one(fn, a, b)
+    concurrent_kernels(ctx)
     if ctx.tier == "thorough":
         asan(ctx, subs)
     if ctx.oracle_only:
@@ -205,6 +206,81 @@ def run(ctx):
             same = False
         if not same:
             ctx.corr_fail("twin %s vs the model regenerated from the .pyx %s" % (str(got)[:200], str(m)[:200]), case)
+
+
+CONC_SCRIPT = r'''
+import sys, json, importlib.util, threading, numpy as np
+spec = importlib.util.spec_from_file_location("conc_pkg.set_operations", sys.argv[1])
+m = importlib.util.module_from_spec(spec); spec.loader.exec_module(m)
+rng = np.random.default_rng(int(sys.argv[2]))
+rounds = int(sys.argv[3])
+jobs = []
+for t, (k, n) in enumerate([(16, 120000), (12, 200000), (16, 60000)]):
+    arrays = [np.unique(rng.integers(0, 4 * n, size=n).astype(np.uint32)) for _ in range(k)]
+    jobs.append((arrays, np.unique(np.concatenate(arrays))))
+pa = np.unique(rng.integers(0, 2000000, size=300000).astype(np.uint32)); pb = np.unique(rng.integers(0, 2000000, size=300000).astype(np.uint32))
+out = [[] for _ in range(4)]
+def many(t):
+    arrays, want = jobs[t]
+    for r in range(rounds):
+        try:
+            got = np.asarray(m.set_union_merge_many(arrays))
+            if not np.array_equal(got, want):
+                out[t].append("wrong: %d values, expected %d" % (len(got), len(want)))
+        except IndexError as e:
+            out[t].append("oob: " + str(e))
+        except Exception as e:
+            out[t].append("raise: " + type(e).__name__)
+def pairwise(t):
+    wi, wu = np.intersect1d(pa, pb), np.union1d(pa, pb)
+    for r in range(rounds * 2):
+        try:
+            if not np.array_equal(np.asarray(m.set_intersect_merge_np(pa, pb)), wi) or not np.array_equal(np.asarray(m.set_union_merge_np(pa, pb)), wu):
+                out[t].append("wrong: pairwise")
+        except IndexError as e:
+            out[t].append("oob: " + str(e))
+ths = [threading.Thread(target=many, args=(t,)) for t in range(3)] + [threading.Thread(target=pairwise, args=(3,))]
+[t.start() for t in ths]; [t.join() for t in ths]
+print("RESULT " + json.dumps(out))
+'''
+
+
+def concurrent_kernels(ctx):
+    """the kernels release the GIL: three k-way unions (12..16 arrays of 60k..200k row ids) and a stream of pairwise kernels
+    running at the same time on four threads, in the bounds-checked twin (own process: a stray write must not take the
+    check down with it).  Every call must stay inside ITS buffers (no IndexError from the twin) and return its own result."""
+    import json
+    import buildext
+    so = buildext.build("checked")
+    rounds = 3 if ctx.scale == 1 else 12
+    try:
+        p = subprocess.run([core.PY, "-c", CONC_SCRIPT, so, str(ctx.seed + 9), str(rounds)], capture_output=True, text=True, timeout=900)
+    except subprocess.TimeoutExpired:
+        raise core.Infra("concurrent kernel run timed out")
+    case = {"concurrent": True, "threads": 4, "rounds": rounds, "seed": ctx.seed + 9}
+    ctx.case(case, nontrivial=True)
+    ctx.hit("concurrent_kernel_calls", rounds * 5)
+    res = [l for l in p.stdout.splitlines() if l.startswith("RESULT ")]
+    if not res:
+        if p.returncode < 0:
+            ctx.oracle_fail("the process running three k-way unions and pairwise kernels at the same time (bounds-checked twin) died with "
+                            "signal %d" % -p.returncode, case, cls="C09-oob")
+            return
+        raise core.Infra("concurrent kernel run failed: " + p.stderr[-400:])
+    out = json.loads(res[0][7:])
+    for t, bad in enumerate(out):
+        oob = [b for b in bad if b.startswith("oob")]
+        if oob:
+            ctx.oracle_fail("%s running beside three other kernel calls: the bounds-checked twin raised IndexError (%s) - the shipped "
+                            "kernel reads/writes outside its buffers under this schedule (%d of its calls)" % (
+                                "set_union_merge_many" if t < 3 else "a pairwise kernel", oob[0][5:], len(oob)), case, cls="C09-oob")
+            return
+    for t, bad in enumerate(out):
+        if bad:
+            ctx.oracle_fail("%s running beside three other kernel calls returned a wrong result (%s; %d of its calls) - it was "
+                            "reading or writing another call's buffers" % ("set_union_merge_many" if t < 3 else "a pairwise kernel",
+                                                                           bad[0], len(bad)), case, cls="C09-oob")
+            return
 
 
 ASAN_SCRIPT = r'''
@@ -266,6 +342,11 @@ def asan(ctx, subs):
 def replay(ctx, rep):
     ck = core.load_kernels("checked")
     c = rep["case"]
+    if c.get("concurrent"):
+        n0 = len(ctx.oracle_failures)
+        ctx.seed = c["seed"] - 9
+        concurrent_kernels(ctx)
+        return len(ctx.oracle_failures) == n0
     if "big" in c:
         na, nb, step_b = c["big"]
         a = np.arange(0, na, dtype=np.uint32)
